@@ -199,21 +199,14 @@ def run(R):
     # keep inits, rekeys, and chunks preferring short ones (TLC cost grows with length) plus a few long
     recs.sort(key=lambda r: len(r.get("m", [])) + len(r.get("ad", [])))
     pick = recs[:want - 6] + recs[-6:]
-    shards = vlib.shard(pick, vlib.NCPU)
-    envs = []
-    for i, sh in enumerate(shards):
+    files = []
+    for i, sh in enumerate(vlib.shard(pick, vlib.NCPU)):
         p = R.path("ss", "bytes-shard-%d.ndjson" % i)
         vlib.write_ndjson(p, sh)
-        envs.append({"TRACE": p})
-    res = R.tlc_shards("trace/OracleSS.tla", "Empty.cfg", envs, timeout=1500)
-    nbytes = 0
-    for sh, r in zip(shards, res):
-        m = re.search(r'<<"ORACLE", (\d+), \{([^}]*)\}>>', r.out)
-        if not m:
-            raise vlib.MachineryError("OracleSS produced no result:\n" + r.tail(30))
-        nbytes += int(m.group(1))
-        for idx in [int(x) for x in m.group(2).split(",") if x.strip()]:
-            R.violation("secretstream bytes differ from the documented construction (op %s)" % sh[idx - 1]["op"], sh[idx - 1], name="bytes")
+        files.append(p)
+    nbytes, bad = R.oracle("trace/OracleSS.tla", files)
+    for b in bad[:5]:
+        R.violation("secretstream bytes differ from the documented construction (op %s)" % b["op"], b, name="bytes")
     R.cov["byte_level_records_validated"] = nbytes
     R.assumptions += ["symbolic (perfect) cryptography in the state-machine model; byte-level construction checked separately against lib/SecretStreamBytes.tla",
                       "digests (30-bit) identify messages/chunks in traces; a collision could hide a difference with probability 2^-30 per comparison",
